@@ -236,8 +236,12 @@ class Executor:
         if not visual:
             return (box, custom)
         quality = t.opt_f32()
-        n = t.int()
-        feature = [t.f32() for _ in range(n)] if n > 0 else None
+        nt = t.next()          # a count, or `e` for a feature list that is present but empty
+        if nt == 'e':
+            feature = []
+        else:
+            n = int(nt)
+            feature = [t.f32() for _ in range(n)] if n > 0 else None
         return self.m.VisualSortObservation(feature, quality, box, custom)
 
     def dets(self, t, visual):
